@@ -8,6 +8,7 @@ import (
 	"bufio"
 	"fmt"
 	"io"
+	"os"
 	"os/exec"
 	"strconv"
 	"strings"
@@ -281,6 +282,9 @@ func (s *Solver) Check(pc []*Term, extra *Term, vars []*Term, label string) (str
 		s.buf.WriteString("(pop 1)\n")
 	}
 	d := time.Since(t0)
+	if s.log != nil {
+		fmt.Fprintf(s.log, "; RESULT %s %.3fs depth=%d label=%s\n", res, d.Seconds(), len(s.stack), label)
+	}
 	s.Stats.Queries++
 	s.Stats.Time += d
 	if d > s.Stats.Slowest {
@@ -474,4 +478,20 @@ func parseModel(txt string, vars []*Term) Model {
 		}
 	}
 	return m
+}
+
+
+// DumpQuery writes a standalone script of pc ∧ extra (for debugging hard queries)
+func DumpQuery(path string, pc []*Term, extra *Term) {
+	s := &Solver{kind: Z3, emitted: map[int]bool{}, declared: map[string]bool{}}
+	for _, p := range pc {
+		s.emit(p)
+		fmt.Fprintf(&s.buf, "(assert %s)\n", p.ref())
+	}
+	if extra != nil {
+		s.emit(extra)
+		fmt.Fprintf(&s.buf, "(assert %s)\n", extra.ref())
+	}
+	s.buf.WriteString("(check-sat)\n")
+	os.WriteFile(path, []byte(s.buf.String()), 0644)
 }
